@@ -487,3 +487,49 @@ def c18_handler(rng):
     events.append(far_end(events))
     return {"events": events, "rules": [], "draws": [], "tag": "handler-request",
             "oracle_only": "handler-awaits-own-request", "second_context": True}
+
+
+def c02_boundary():
+    """token counter at byte boundaries and at the 64-bit wrap; a long run in which the counter passes
+    0x100 while the request with token 01 is still outstanding"""
+    scripts = []
+    for start in (0xFE, 0xFFFE, 0xFFFFFE, 2 ** 64 - 3):
+        ev = []
+        toks = []
+        for i in range(4):
+            ev.append(submit(1000 + 10 * i, i, 0, rel=False))
+            n = (start + 1 + i) % (2 ** 64)
+            toks.append(n.to_bytes(8, "big").lstrip(b"\0").hex() or "-")
+        for i in range(4):
+            ev.append(["R", 5000 + 10 * i, 0, False, "NON", CONTENT, 3000 + i, toks[3 - i], None, 200 + (3 - i)])
+        ev.append(far_end(ev))
+        scripts.append({"events": ev, "rules": [], "draws": [], "token": start, "tag": f"token-boundary:{start:x}"})
+    ev = []
+    for i in range(257):
+        ev.append(submit(1000 + 10 * i, i, 0, rel=False))
+    # answers for the first and the 256th request (tokens 01 and 0100), in reverse order
+    ev.append(["R", 10000, 0, False, "NON", CONTENT, 3000, "0100", None, 455])
+    ev.append(["R", 10010, 0, False, "NON", CONTENT, 3001, "01", None, 200])
+    ev.append(far_end(ev))
+    scripts.append({"events": ev, "rules": [], "draws": [], "token": 0, "tag": "token-long-run"})
+    return scripts
+
+
+def c02_sendfail(rng, cfg):
+    """c02_random plus a window in which sendmsg() to one endpoint raises; oracle-only"""
+    s = c02_random(rng, cfg, with_shutdown=False)
+    events = [e for e in s["events"] if e[0] != "A"]
+    used = {e[1] for e in events}
+    subs = [e for e in events if e[0] == "S"]
+    victim = rng.choice(subs)
+    t_on = victim[1] - rng.choice([1, 5, 50])
+    while t_on in used or t_on < 1:
+        t_on += 1 if t_on >= 1 else 2
+    t_off = victim[1] + rng.choice([1, 500, 3 * M, 50 * M])
+    while t_off in used:
+        t_off += 1
+    events += [["F", t_on, victim[3], True], ["F", t_off, victim[3], False]]
+    events.sort(key=lambda e: e[1])
+    events.append(far_end(events))
+    return {"events": events, "rules": s["rules"], "draws": s["draws"], "tag": "sendfail",
+            "oracle_only": "synchronous-send-error"}
